@@ -236,11 +236,15 @@ Proof.
   - apply IH. intros x0 y0 Hin. apply Himp. now right.
 Qed.
 
+(** chunksize=None means max(nnz, 1), so the effective chunk size of the cis-only partition is always >= 1 *)
+Lemma eff_chunk_ge1 : forall o nnz, chunk_ok (o_chunk o) -> 1 <= eff_chunk o nnz.
+Proof. intros o nnz H. unfold eff_chunk, chunk_ok in *. destruct (o_chunk o); lia. Qed.
+
 (** the whole cis-only run of the model: for every chromosome [lo,hi) (bins with their own chromosome id, pixels
     sorted by bin1) and every bin i of it, the reported weight is NaN iff the bin is excluded by one of the
     documented filters or the chromosome has no remaining intra-chromosomal data; all other weights are positive *)
 Theorem balance_cis_nan_set : forall o n chroms offsets px rs,
-  o_cis o = true -> 1 <= eff_chunk o (zlen px) -> good_px n px = true -> rows_sorted px ->
+  o_cis o = true -> chunk_ok (o_chunk o) -> good_px n px = true -> rows_sorted px ->
   length (x0_bias n (o_x0 o)) = n -> NonNeg (x0_bias n (o_x0 o)) ->
   let ranges := combine (removelast offsets) (tl offsets) in
   Chain 0 ranges (Z.of_nat n) ->
@@ -256,7 +260,8 @@ Theorem balance_cis_nan_set : forall o n chroms offsets px rs,
           masked_mad o n chroms offsets px i \/ In i (o_black o)) /\
        (forall x, onth (c_bias r) (i - lo) = Some x -> (0 < x)%Q)) ranges rs.
 Proof.
-  intros o n chroms offsets px rs Hcis Hc Hg Hs Hx0 Hx0n ranges Hch Hsep Hbal b0.
+  intros o n chroms offsets px rs Hcis Hck Hg Hs Hx0 Hx0n ranges Hch Hsep Hbal b0.
+  pose proof (eff_chunk_ge1 o (zlen px) Hck) as Hc.
   assert (Hnm : length (norm_marg (marg_of n (balance_spans (zlen px) (o_chunk o)) (base_filters o chroms) px) offsets) = n).
   { apply length_norm_marg; [apply length_marg_of | exact Hch]. }
   pose proof (initial_bias_length o n chroms offsets px Hx0 Hnm) as Lb.
